@@ -603,6 +603,20 @@ class SReal:
     def __floor__(self):
         return SInt(z3.ToInt(self.t))
 
+    def _nearest_even(self):
+        """round-half-to-even to an integer (what builtin round(x) and numpy.rint/round do), as an integer term"""
+        h = self.t + z3.RealVal(1) / 2
+        f = z3.ToInt(h)
+        return z3.If(z3.And(z3.ToReal(f) == h, f % 2 != 0), f - 1, f)
+
+    def __round__(self, ndigits=None):
+        if ndigits is None:
+            return SInt(self._nearest_even())
+        if not isinstance(ndigits, int):
+            raise Unsupported("round() with a symbolic number of digits")
+        sc = z3.RealVal(10) ** ndigits if ndigits >= 0 else z3.RealVal(1) / (10 ** (-ndigits))
+        return SReal(z3.ToReal(SReal(self.t * sc)._nearest_even()) / sc)
+
     def ceil(self):
         return SReal(-z3.ToReal(z3.ToInt(-self.t)))
 
